@@ -41,20 +41,18 @@ theorem represent_of_inRange {x : Int} (h : InRange x) : Spec.represent x = some
 theorem represent_eq_none {x : Int} (h : Spec.represent x = none) : checked x = none := by
   rw [checked_eq_represent]; exact h
 
+theorem bind_represent_inRange {o : Option Nat} {f : Nat → Int} {v : Int}
+    (h : (o.bind fun n => Spec.represent (f n)) = some v) : InRange v := by
+  cases o with
+  | none => simp [Option.bind] at h
+  | some n => simp only [Option.bind] at h; exact (represent_eq_some h).2
+
 theorem signedConst_inRange {s : List Char} {v : Int} (h : Spec.signedConstValue s = some v) : InRange v := by
   unfold Spec.signedConstValue at h
   split at h
-  · cases hm : Spec.constMagnitude ‹_› with
-    | none => simp [hm, Option.bind] at h
-    | some n => simp only [hm, Option.bind] at h; exact (represent_eq_some h).2
-  · unfold Spec.constValue at h
-    cases hm : Spec.constMagnitude ‹_› with
-    | none => simp [hm, Option.bind] at h
-    | some n => simp only [hm, Option.bind] at h; exact (represent_eq_some h).2
-  · unfold Spec.constValue at h
-    cases hm : Spec.constMagnitude ‹_› with
-    | none => simp [hm, Option.bind] at h
-    | some n => simp only [hm, Option.bind] at h; exact (represent_eq_some h).2
+  · exact bind_represent_inRange h
+  · exact bind_represent_inRange (f := fun n => (n : Int)) h
+  · exact bind_represent_inRange (f := fun n => (n : Int)) h
 
 /-- `expand_variable` against the Spec's `readVar` -/
 theorem expandVariable_eq (x : Name) (env : Env) :
@@ -114,5 +112,297 @@ theorem Fails.read {e : Spec.Expr} {env : Env} (h : Fails e env) {β : Type}
   rcases h with ⟨err, he⟩ | ⟨x, env1, err, he, hv⟩
   · exact ⟨err, by rw [he]; rfl⟩
   · exact ⟨err, by rw [he]; simp only [Res.bind, hv]⟩
+
+/-! ### the cases -/
+
+theorem agree_num (v : Int) (h : InRange v) : Agree (.num v) := by
+  intro env
+  simp only [Spec.evalExact, represent_of_inRange h, Option.map]
+  refine ⟨?_, by simp⟩
+  intro v' env' he
+  simp only [Option.some.injEq, Prod.mk.injEq] at he
+  obtain ⟨rfl, rfl⟩ := he
+  exact ⟨h, .value v, by simp [evalTree], rfl⟩
+
+theorem agree_var (x : Name) : Agree (.var x) := by
+  intro env
+  simp only [Spec.evalExact]
+  cases hr : Spec.readVar env x with
+  | some v =>
+    refine ⟨?_, by simp [Option.map]⟩
+    intro v' env' he
+    simp only [Option.map, Option.some.injEq, Prod.mk.injEq] at he
+    obtain ⟨rfl, rfl⟩ := he
+    exact ⟨readVar_inRange hr, .variable x, by simp [evalTree], expandVariable_of_some hr⟩
+  | none =>
+    refine ⟨by simp [Option.map], ?_⟩
+    intro _
+    exact Or.inr ⟨x, env, _, by simp [evalTree], expandVariable_of_none hr⟩
+
+theorem agree_cond (c t e : Spec.Expr) (ihc : Agree c) (iht : Agree t) (ihe : Agree e) :
+    Agree (.cond c t e) := by
+  intro env
+  simp only [Spec.evalExact]
+  cases hc : Spec.evalExact c env with
+  | none =>
+    refine ⟨by simp [Option.bind], fun _ => ?_⟩
+    obtain ⟨err, he⟩ := ((ihc env).2 hc).read (fun _ env1 a => if a ≠ 0 then evalTree t env1 else evalTree e env1)
+    exact Or.inl ⟨err, by rw [evalTree]; exact he⟩
+  | some p =>
+    obtain ⟨a, env1⟩ := p
+    obtain ⟨_, ct, hct, hcv⟩ := (ihc env).1 a env1 hc
+    have hev : evalTree (.cond c t e) env = if a ≠ 0 then evalTree t env1 else evalTree e env1 := by
+      rw [evalTree, hct]; simp only [Res.bind, hcv]
+    simp only [Option.bind]
+    by_cases ha : a ≠ 0
+    · rw [if_pos ha] at hev ⊢
+      unfold Succeeds Fails
+      rw [hev]
+      exact iht env1
+    · rw [if_neg ha] at hev ⊢
+      unfold Succeeds Fails
+      rw [hev]
+      exact ihe env1
+
+/-! #### operators that need an lvalue -/
+
+theorem var_or_not (e : Spec.Expr) : (∃ x, e = .var x) ∨ (∀ x, e ≠ .var x) := by
+  cases e <;> simp
+
+theorem isLazy_false_of (e : Spec.Expr) (hv : ∀ x, e ≠ .var x) (hc : Spec.isCond e = false) :
+    isLazy e = false := by
+  cases e <;> simp_all [isLazy, Spec.isCond]
+
+/-- a node that is neither a variable nor a conditional fails or yields a value term -/
+theorem nonlazy_cases (e : Spec.Expr) (env : Env) (hl : isLazy e = false) :
+    (∃ err, evalTree e env = .error err) ∨ (∃ v env1, evalTree e env = .ok (.value v, env1)) := by
+  have hret := evalTree_returns e env
+  cases h : evalTree e env with
+  | ok p =>
+    obtain ⟨t, env1⟩ := p
+    obtain ⟨v, hv⟩ := evalTree_value_form e env hl t env1 h
+    subst hv; exact Or.inr ⟨v, env1, rfl⟩
+  | error err => exact Or.inl ⟨err, rfl⟩
+  | panic => rw [h] at hret; exact hret.elim
+  | fuel => rw [h] at hret; exact hret.elim
+
+theorem checked_of_inRange {x : Int} (h : InRange x) : checked x = some x := by
+  unfold checked; rw [if_pos h]
+
+theorem evalExact_pre_incdec_var (op : PrefixOperator) (x : Name) (env : Env)
+    (hop : op = .Increment ∨ op = .Decrement) :
+    Spec.evalExact (.pre op (.var x)) env =
+      (Spec.readVar env x).bind fun v =>
+        (Spec.represent (if op = .Increment then v + 1 else v - 1)).map fun nv => (nv, Spec.writeVar env x nv) := by
+  rcases hop with rfl | rfl <;> simp [Spec.evalExact]
+
+theorem evalExact_pre_incdec_nonvar (op : PrefixOperator) (e : Spec.Expr) (env : Env)
+    (hop : op = .Increment ∨ op = .Decrement) (hne : ∀ x, e ≠ .var x) :
+    Spec.evalExact (.pre op e) env = none := by
+  rcases hop with rfl | rfl <;> cases e <;> simp_all [Spec.evalExact]
+
+theorem evalExact_post_var (op : PostfixOperator) (x : Name) (env : Env) :
+    Spec.evalExact (.post op (.var x)) env =
+      (Spec.readVar env x).bind fun v =>
+        (Spec.represent (if op = .Increment then v + 1 else v - 1)).map fun nv => (v, Spec.writeVar env x nv) := by
+  simp [Spec.evalExact]
+
+theorem evalExact_post_nonvar (op : PostfixOperator) (e : Spec.Expr) (env : Env) (hne : ∀ x, e ≠ .var x) :
+    Spec.evalExact (.post op e) env = none := by
+  cases e <;> simp_all [Spec.evalExact]
+
+theorem agree_pre_incdec_var (op : PrefixOperator) (hop : op = .Increment ∨ op = .Decrement) (x : Name) :
+    Agree (.pre op (.var x)) := by
+  intro env
+  rw [evalExact_pre_incdec_var op x env hop]
+  have hev : evalTree (.pre op (.var x)) env = valueTerm (applyPrefix (.variable x) op env) := by
+    simp [evalTree, Res.bind]
+  cases hr : Spec.readVar env x with
+  | none =>
+    refine ⟨by simp [Option.bind], fun _ => Or.inl ⟨.invalidVariableValue, ?_⟩⟩
+    rw [hev]
+    rcases hop with rfl | rfl <;>
+      simp [applyPrefix, requireVariable, expandVariable_of_none hr, Res.bind, valueTerm]
+  | some v =>
+    have hx := expandVariable_of_some hr
+    simp only [Option.bind]
+    cases hn : Spec.represent (if op = .Increment then v + 1 else v - 1) with
+    | none =>
+      refine ⟨by simp [Option.map], fun _ => Or.inl ⟨.overflow, ?_⟩⟩
+      rw [hev]
+      rcases hop with rfl | rfl
+      · simp only [if_true] at hn
+        simp [applyPrefix, requireVariable, hx, Res.bind, valueTerm, represent_eq_none hn, Res.ofOption]
+      · simp only [reduceCtorEq, if_false] at hn
+        simp [applyPrefix, requireVariable, hx, Res.bind, valueTerm, represent_eq_none hn, Res.ofOption]
+    | some w =>
+      obtain ⟨hw, hin⟩ := represent_eq_some hn
+      refine ⟨?_, by simp [Option.map]⟩
+      intro v' env' he
+      simp only [Option.map, Option.some.injEq, Prod.mk.injEq] at he
+      obtain ⟨rfl, rfl⟩ := he
+      refine ⟨hin, .value w, ?_, rfl⟩
+      rw [hev, writeVar_eq]
+      rcases hop with rfl | rfl
+      · simp only [if_true] at hw
+        subst hw
+        simp [applyPrefix, requireVariable, hx, Res.bind, valueTerm, checked_of_inRange hin, Res.ofOption, assign]
+      · simp only [reduceCtorEq, if_false] at hw
+        subst hw
+        simp [applyPrefix, requireVariable, hx, Res.bind, valueTerm, checked_of_inRange hin, Res.ofOption, assign]
+
+theorem agree_pre_incdec_nonvar (op : PrefixOperator) (hop : op = .Increment ∨ op = .Decrement)
+    (e : Spec.Expr) (hne : ∀ x, e ≠ .var x) (hc : Spec.isCond e = false) : Agree (.pre op e) := by
+  intro env
+  rw [evalExact_pre_incdec_nonvar op e env hop hne]
+  refine ⟨by simp, fun _ => Or.inl ?_⟩
+  rcases nonlazy_cases e env (isLazy_false_of e hne hc) with ⟨err, he⟩ | ⟨v, env1, he⟩
+  · exact ⟨err, by rw [evalTree, he]; rfl⟩
+  · refine ⟨.assignmentToValue, ?_⟩
+    rw [evalTree, he]
+    rcases hop with rfl | rfl <;> simp [Res.bind, applyPrefix, requireVariable, valueTerm]
+
+theorem agree_post_var (op : PostfixOperator) (x : Name) : Agree (.post op (.var x)) := by
+  intro env
+  rw [evalExact_post_var op x env]
+  have hev : evalTree (.post op (.var x)) env = valueTerm (applyPostfix (.variable x) op env) := by
+    simp [evalTree, Res.bind]
+  cases hr : Spec.readVar env x with
+  | none =>
+    refine ⟨by simp [Option.bind], fun _ => Or.inl ⟨.invalidVariableValue, ?_⟩⟩
+    rw [hev]
+    simp [applyPostfix, requireVariable, expandVariable_of_none hr, Res.bind, valueTerm]
+  | some v =>
+    have hx := expandVariable_of_some hr
+    have hvr := readVar_inRange hr
+    simp only [Option.bind]
+    cases hn : Spec.represent (if op = .Increment then v + 1 else v - 1) with
+    | none =>
+      refine ⟨by simp [Option.map], fun _ => Or.inl ⟨.overflow, ?_⟩⟩
+      rw [hev]
+      cases op
+      · simp only [if_true] at hn
+        simp [applyPostfix, requireVariable, hx, Res.bind, valueTerm, represent_eq_none hn, Res.ofOption]
+      · simp only [reduceCtorEq, if_false] at hn
+        simp [applyPostfix, requireVariable, hx, Res.bind, valueTerm, represent_eq_none hn, Res.ofOption]
+    | some w =>
+      obtain ⟨hw, hin⟩ := represent_eq_some hn
+      refine ⟨?_, by simp [Option.map]⟩
+      intro v' env' he
+      simp only [Option.map, Option.some.injEq, Prod.mk.injEq] at he
+      obtain ⟨rfl, rfl⟩ := he
+      refine ⟨hvr, .value v, ?_, rfl⟩
+      rw [hev, writeVar_eq]
+      cases op
+      · simp only [if_true] at hw
+        subst hw
+        simp [applyPostfix, requireVariable, hx, Res.bind, valueTerm, checked_of_inRange hin, Res.ofOption, assign]
+      · simp only [reduceCtorEq, if_false] at hw
+        subst hw
+        simp [applyPostfix, requireVariable, hx, Res.bind, valueTerm, checked_of_inRange hin, Res.ofOption, assign]
+
+theorem agree_post_nonvar (op : PostfixOperator) (e : Spec.Expr) (hne : ∀ x, e ≠ .var x)
+    (hc : Spec.isCond e = false) : Agree (.post op e) := by
+  intro env
+  rw [evalExact_post_nonvar op e env hne]
+  refine ⟨by simp, fun _ => Or.inl ?_⟩
+  rcases nonlazy_cases e env (isLazy_false_of e hne hc) with ⟨err, he⟩ | ⟨v, env1, he⟩
+  · exact ⟨err, by rw [evalTree, he]; rfl⟩
+  · refine ⟨.assignmentToValue, ?_⟩
+    rw [evalTree, he]
+    simp [Res.bind, applyPostfix, requireVariable, valueTerm]
+
+/-! #### prefix operators on values -/
+
+/-- the Model's tree evaluation of a value-reading prefix operator, when the operand succeeds -/
+theorem evalTree_pre_of_succeeds {e : Spec.Expr} {env env' : Env} {v : Int} {op : PrefixOperator}
+    (h : Succeeds e env v env') :
+    ∃ t, intoValue t env' = .ok v ∧ evalTree (.pre op e) env = valueTerm (applyPrefix t op env') := by
+  obtain ⟨_, t, ht, hv⟩ := h
+  exact ⟨t, hv, by rw [evalTree, ht]; rfl⟩
+
+theorem agree_pre_value (op : PrefixOperator) (e : Spec.Expr) (ih : Agree e)
+    (hop : op ≠ .Increment ∧ op ≠ .Decrement) : Agree (.pre op e) := by
+  intro env
+  cases hc : Spec.evalExact e env with
+  | none =>
+    have hn : Spec.evalExact (.pre op e) env = none := by
+      cases op <;> simp_all [Spec.evalExact, Option.bind, Option.map]
+    rw [hn]
+    refine ⟨by simp, fun _ => ?_⟩
+    rcases (ih env).2 hc with ⟨err, he⟩ | ⟨x, env1, err, he, hv⟩
+    · exact Or.inl ⟨err, by rw [evalTree, he]; rfl⟩
+    · refine Or.inl ⟨err, ?_⟩
+      rw [evalTree, he]
+      cases op <;> simp_all [Res.bind, applyPrefix, valueTerm]
+  | some p =>
+    obtain ⟨v, env'⟩ := p
+    have hs := (ih env).1 v env' hc
+    have hvr := hs.1
+    obtain ⟨t, hv, hev⟩ := evalTree_pre_of_succeeds (op := op) hs
+    cases op with
+    | Increment => exact absurd rfl hop.1
+    | Decrement => exact absurd rfl hop.2
+    | NumericCoercion =>
+      simp only [Spec.evalExact, hc]
+      refine ⟨?_, by simp⟩
+      intro v' env'' he
+      simp only [Option.some.injEq, Prod.mk.injEq] at he
+      obtain ⟨rfl, rfl⟩ := he
+      exact ⟨hvr, .value v, by rw [hev]; simp [applyPrefix, hv, Res.bind, valueTerm], rfl⟩
+    | NumericNegation =>
+      simp only [Spec.evalExact, hc, Option.bind]
+      cases hn : Spec.represent (-v) with
+      | none =>
+        refine ⟨by simp [Option.map], fun _ => Or.inl ⟨.overflow, ?_⟩⟩
+        rw [hev]; simp [applyPrefix, hv, Res.bind, valueTerm, represent_eq_none hn, Res.ofOption]
+      | some w =>
+        obtain ⟨hw, hin⟩ := represent_eq_some hn
+        subst hw
+        refine ⟨?_, by simp [Option.map]⟩
+        intro v' env'' he
+        simp only [Option.map, Option.some.injEq, Prod.mk.injEq] at he
+        obtain ⟨rfl, rfl⟩ := he
+        exact ⟨hin, .value (-v), by
+          rw [hev]; simp [applyPrefix, hv, Res.bind, valueTerm, checked_of_inRange hin, Res.ofOption], rfl⟩
+    | LogicalNegation =>
+      simp only [Spec.evalExact, hc, Option.map]
+      refine ⟨?_, by simp⟩
+      intro v' env'' he
+      simp only [Option.some.injEq, Prod.mk.injEq] at he
+      obtain ⟨rfl, rfl⟩ := he
+      refine ⟨truth_inRange' _, .value (Spec.truth (v = 0)), ?_, rfl⟩
+      rw [hev]; simp only [applyPrefix, hv, Res.bind, valueTerm, Spec.truth]
+    | BitwiseNegation =>
+      simp only [Spec.evalExact, hc, Option.map]
+      refine ⟨?_, by simp⟩
+      intro v' env'' he
+      simp only [Option.some.injEq, Prod.mk.injEq] at he
+      obtain ⟨rfl, rfl⟩ := he
+      refine ⟨by unfold InRange at *; omega, .value (-v - 1), ?_, rfl⟩
+      rw [hev]; simp [applyPrefix, hv, Res.bind, valueTerm, bitNot_exact v hvr]
+
+theorem agree_pre (op : PrefixOperator) (e : Spec.Expr) (hs : Spec.inScope (.pre op e) = true)
+    (ih : Agree e) : Agree (.pre op e) := by
+  by_cases hop : op = .Increment ∨ op = .Decrement
+  · have hc : Spec.isCond e = false := by
+      simp only [Spec.inScope, Bool.and_eq_true, Bool.not_eq_true', Bool.and_eq_false_iff,
+        decide_eq_false_iff_not] at hs
+      rcases hs.2 with h | h
+      · exact absurd hop h
+      · exact h
+    rcases var_or_not e with ⟨x, rfl⟩ | hne
+    · exact agree_pre_incdec_var op hop x
+    · exact agree_pre_incdec_nonvar op hop e hne hc
+  · exact agree_pre_value op e ih ⟨fun h => hop (Or.inl h), fun h => hop (Or.inr h)⟩
+
+theorem agree_post (op : PostfixOperator) (e : Spec.Expr) (hs : Spec.inScope (.post op e) = true) :
+    Agree (.post op e) := by
+  have hc : Spec.isCond e = false := by
+    simp only [Spec.inScope, Bool.and_eq_true, Bool.not_eq_true'] at hs
+    exact hs.2
+  rcases var_or_not e with ⟨x, rfl⟩ | hne
+  · exact agree_post_var op x
+  · exact agree_post_nonvar op e hne hc
 
 end YashModel.Arith
